@@ -1,7 +1,7 @@
 SPECIFICATION Spec
 CONSTANTS
   MaxEdits = 2
-  LongNames = FALSE
+  LongNames = TRUE
 INVARIANTS
   Laws
   NothingIffEqual
